@@ -11,8 +11,8 @@ for h in sorted(reg.values(), key=lambda h: (h.fn.__module__, h.id)):
     tg = ', '.join(t.replace('kopf._core.', '').replace('kopf._cogs.', '') for t in h.targets)
     if len(tg) > 150:
         tg = tg[:147] + '...'
-    rows.append((h.id, 'B' if getattr(h, 'kind', '') == 'bounded' else 'P', h.fn.__module__.split('.')[-1], ' '.join(h.props), str(len(h.clauses)), tg))
+    rows.append((h.id, 'B' if getattr(h, 'kind', '') == 'bounded' else ('S' if getattr(h, 'sizes_only', False) else 'P'), h.fn.__module__.split('.')[-1], ' '.join(h.props), str(len(h.clauses)), tg))
 print('| id | tier | contracts file | properties | clauses | functions under contract |\n|---|---|---|---|---|---|')
 for r in rows:
     print('| ' + ' | '.join(r) + ' |')
-print(f'\n{len(rows)} harnesses ({sum(1 for r in rows if r[1] == "P")} deductive, {sum(1 for r in rows if r[1] == "B")} bounded).')
+print(f'\n{len(rows)} harnesses ({sum(1 for r in rows if r[1] == "P")} deductive, {sum(1 for r in rows if r[1] == "B")} bounded, {sum(1 for r in rows if r[1] == "S")} native for stated sizes only (S: exhaustive small scope, reported as tier B, never counted as proved)).')
